@@ -254,14 +254,38 @@ def TInfo.routes : TInfo → List Route
   | .storage rs => rs
   | .other _ => []
 
+/-- Push the routes of `new` whose id is not yet listed (the report-once loop of
+`IpMatcher::match_request`; with `routes = []` the `retain(|r| seen.insert(r.id()))` of
+`Trace::get_routes_from_traces`: first occurrence of every id, order kept). -/
+def pushNew (routes : List Route) (new : List Route) : List Route :=
+  new.foldl (fun acc r => if acc.any (fun x => x.id == r.id) then acc else acc ++ [r]) routes
+
+/-- `routes.retain(|route| seen.insert(route.id()))`. -/
+def dedupIds (rs : List Route) : List Route := pushNew [] rs
+
 mutual
-/-- One iteration of the loop of `Trace::get_routes_from_traces`. -/
+/-- What one iteration of the loop of `Trace::get_routes_from_traces` appends: the stored routes and
+the (already deduplicated) result of the recursive call on the children. -/
 def Trace.routes : Trace → List Route
-  | .mk _ _ _ info children => info.routes ++ routesOfList children
-/-- `Trace::get_routes_from_traces`. -/
-def routesOfList : List Trace → List Route
+  | .mk _ _ _ info children => info.routes ++ dedupIds (collectList children)
+/-- `routes` of `Trace::get_routes_from_traces` before the final `retain`. -/
+def collectList : List Trace → List Route
   | [] => []
-  | t :: ts => t.routes ++ routesOfList ts
+  | t :: ts => t.routes ++ collectList ts
+end
+
+/-- `Trace::get_routes_from_traces` (after the repair 0b5ee14: a route stored under several
+accepting ip ranges is reported once). -/
+def routesOfList (ts : List Trace) : List Route := dedupIds (collectList ts)
+
+mutual
+/-- Every route stored anywhere in a trace, with repetitions (specification helper: what
+`get_routes_from_traces` returned before the repair). -/
+def Trace.rawRoutes : Trace → List Route
+  | .mk _ _ _ info children => info.routes ++ rawRoutesOfList children
+def rawRoutesOfList : List Trace → List Route
+  | [] => []
+  | t :: ts => t.rawRoutes ++ rawRoutesOfList ts
 end
 
 def Trace.matched : Trace → Bool
